@@ -1,7 +1,8 @@
 """C14 -- phasor (AC) results equal the transfer function on the j-omega axis.
 
-1. lake build Lcapy.Props.C14 (ac_is_s_at_jw, phasor_is_transfer, same_freq_sum,
-   phasor_time_roundtrip, phasor_sem, ...), axioms audit.
+1. tx_acdc regenerates Generated/ACTable.lean from acdc.py / phasor.py; lake build Props/C14 (phasor_is_transfer_times_source,
+   same_freq_sum; ac_is_s_at_jw as a remark), C14SS (steady_state_iff_phasor, mna_phasor_is_steady_state, multi_frequency_iff,
+   ac_at_zero_is_dc, ...), C14Conv (conversions on the executed definitions), C14Imm, C14Anchor, NonVacuityC14; axioms audit.
 2. Correspondence: random netlists with 1..3 ac sources (one or two distinct frequencies):
    Lcapy's phasors (node voltages by name, branch currents by component) against the Lean model
    `mna.solve ac w` (= Laplace stamps at s = j w) per frequency.
@@ -26,6 +27,21 @@ from c01 import parse_reply, norm
 warnings.filterwarnings('ignore')
 
 
+def lean_with_retry(chk, files, **kw):
+    """`chk.lean`, repeated when the axiom audit itself could not run: the audit (`lake env lean <audit file>`) is not
+    under the build lock, so it fails with a Lean error when another engineer's build is rewriting a shared .olean at that
+    moment.  That is infrastructure trouble, not a broken obligation; a persistent failure is reported as such."""
+    import time as _t
+    broken = []
+    for attempt in range(3):
+        broken = chk.lean(files, **kw)
+        if 'audit:lean-error' not in broken:
+            return broken
+        chk.count('infrastructure', 'axiom-audit-retried')
+        _t.sleep(15 + 15 * attempt)
+    raise common.Infra('the axiom audit could not run: ' + str(chk.coverage.get('audit', {}).get('log', ''))[-400:])
+
+
 class hard_time_limit(common.time_limit):
     """like common.time_limit, but the alarm re-arms itself: Lcapy has bare `except:` clauses that swallow the first
     TimeLimit, after which the computation would run unbounded"""
@@ -46,7 +62,7 @@ def gtok(v):
 
 
 PROP_FILES = ['Lcapy/Props/C14.lean', 'Lcapy/Props/C14SS.lean', 'Lcapy/Props/C14Imm.lean', 'Lcapy/Props/C14Conv.lean',
-              'Lcapy/Props/C14Anchor.lean']
+              'Lcapy/Props/C14Anchor.lean', 'Lcapy/Props/NonVacuityC14.lean']
 
 
 def sin_coeffs(S, expr, tsym, ws):
@@ -105,7 +121,7 @@ def run(chk, replay=None):
                                   'funcPhase': tinfo['funcPhase'], 'sumBranches': tinfo['sumBranches'],
                                   'sumX': tinfo['sumX'], 'sumY': tinfo['sumY'], 'fromTime': tinfo['fromTime'],
                                   'timeForm': tinfo['timeForm'], 'rmsForm': tinfo['rmsForm']}
-    broken = chk.lean(PROP_FILES,
+    broken = lean_with_retry(chk, PROP_FILES,
                       helper_files=['Lcapy/Proofs/Linear.lean', 'Lcapy/Proofs/MNA.lean', 'Lcapy/Model/MNA.lean',
                                     'Lcapy/Model/Netlist.lean', 'Lcapy/Model/Sources.lean', 'Lcapy/Spec/Laws.lean',
                                     'Lcapy/Spec/LawsTD.lean', 'Lcapy/Spec/LawsTDExec.lean', 'Lcapy/Model/Cx.lean', 'Lcapy/Model/Phasor.lean',
